@@ -222,6 +222,25 @@ def ref_read(s):
     return ("acc", n, board, 2 * (mv - 1) + (1 if w == "1" else 2) - 1, lenient)
 
 
+def is_canonical_text(s):
+    """Python mirror of spec/TpsSpec.v `canonical` (for texts with three fields): in every '/'-group no cell is "x1" and no
+    two neighbouring cells are both empty-run cells (runs of empty squares are maximal), and the move number has no
+    leading zero.  Only for such texts does the property demand format(parse(s)) = s."""
+    f = s.split(" ")
+    if len(f) != 3:
+        return False
+    if f[2].startswith("0"):
+        return False
+    for g in f[0].split("/"):
+        cells = g.split(",")
+        for i, c in enumerate(cells):
+            if c == "x1":
+                return False
+            if c.startswith("x") and i + 1 < len(cells) and cells[i + 1].startswith("x"):
+                return False
+    return True
+
+
 def board_of(p):
     return [[(x.color.value, x.kind.value) for x in sq] for sq in p.board]
 
@@ -500,6 +519,17 @@ def _report(run, cs, failing, limit, describe):
         run.extra.setdefault("more_failing_cases", {})[cs.name] = len(failing) - limit
 
 
+def _split_hits(direct, failing, shard_fail):
+    """oracle hits -> (confirmed by a model disagreement on the same case, not confirmed).  The last component of a hit
+    is the key of its case (None: no case could be written, e.g. format_tps raised).  With a broken shard nothing can be
+    said about its cases, so the hits stand."""
+    bad = {m["key"] for m in failing}
+    conf, over = [], []
+    for h in direct:
+        (conf if (h[-1] is None or h[-1] in bad or shard_fail) else over).append(h)
+    return conf, over
+
+
 def _positions(run):
     rng = run.rng
     if run.quick:
@@ -524,14 +554,14 @@ def _cases_fmt(run, positions):
         try:
             t = tps.format_tps(p)
         except BaseException as e:  # noqa
-            direct.append((p, origin, "format_tps raised " + type(e).__name__))
+            direct.append((p, origin, "format_tps raised " + type(e).__name__, None))
             continue
         o = observe(t)
-        # the property's own statement, checked on the implementation directly as well
-        std = [[s.stones, s.caps] for s in p.stones] == std_reserves(p.size, board_of(p))
-        if o[0] != "acc" or (std and o[1] != p) or (not std and (o[1].board != p.board or o[1].ply != p.ply)):
-            direct.append((p, origin, "parse_tps(format_tps(p)) != p: " + str(j_obs(o))[:400]))
         key = _key("fmt", t + "|" + str([[s.stones, s.caps] for s in p.stones]))
+        # the property's own statement on the implementation (the search oracle, exercised on every input of every run)
+        why = oracle_position(p, t, o)
+        if why:
+            direct.append((p, origin, why, key))
         cs.add(f"({takio.c_pos(p)}, {cstr(t)}, {c_obs(o)})",
                {"key": key, "kind": "fmt", "origin": origin, "position": takio.j_pos(p), "impl_text": t, "impl_parse": j_obs(o)})
         d = f"size{p.size}/{origin}"
@@ -547,10 +577,10 @@ def _cases_fmt(run, positions):
 def _cases_canon(run, positions, n_grammar):
     """independent writer -> implementation parser; Coq: model parse agrees, model format gives the text back"""
     from tak.ptn import tps
-    cs = core.Cases(ID, "canon", HEADER, "list Z * obs",
-                    "fun c => let '(t, o) := c in res_ok (parse_tps t) o && "
-                    "match parse_tps t with Accept p => str_eqb (format_tps p) t | _ => false end",
-                    show="fun c => let '(t, o) := c in (show_res (parse_tps t), "
+    cs = core.Cases(ID, "canon", HEADER, "list Z * obs * list Z",
+                    "fun c => let '(t, o, back) := c in res_ok (parse_tps t) o && "
+                    "match parse_tps t with Accept p => str_eqb (format_tps p) t && str_eqb (format_tps p) back | _ => false end",
+                    show="fun c => let '(t, o, back) := c in (show_res (parse_tps t), "
                          "match parse_tps t with Accept p => format_tps p | _ => [] end)", shard=150)
     direct, seen, samples = [], set(), []
     dist = {"from-position": 0, "from-grammar": 0}
@@ -561,25 +591,24 @@ def _cases_canon(run, positions, n_grammar):
         texts.append((grammar_canonical(run.rng), None, "from-grammar"))
     for t, p, origin in texts:
         o = observe(t)
-        ref = ref_read(t)
-        why = None
-        if o[0] != "acc":
-            why = "canonical text not accepted"
-        elif ref[0] != "acc" or not same_as_ref(o[1], ref):
-            why = "parsed position differs from what the text says (reference reader)"
-        elif p is not None and (board_of(o[1]) != board_of(p) or o[1].ply != p.ply or o[1].size != p.size):
-            why = "parsed position differs from the position written"
-        else:
+        key = _key("canon", t)
+        why = oracle_text(t, o)
+        if why is None and not is_canonical_text(t):
+            why = "HARNESS: the independent writer produced a text that is not canonical"
+        if why is None and p is not None:
+            ref = ref_read(t)
+            if ref[0] != "acc" or ref[1] != p.size or ref[2] != board_of(p) or ref[3] != p.ply:
+                why = "HARNESS: reference reader and independent writer disagree"
+        if why:
+            direct.append((t, origin, why, o, key))
+        back = t
+        if o[0] == "acc":      # what the implementation writes for the position it read (t itself when nothing was read)
             try:
                 back = tps.format_tps(o[1])
             except BaseException as e:  # noqa
                 back = "<" + type(e).__name__ + ">"
-            if back != t:
-                why = "format_tps(parse_tps(s)) != s: " + back[:200]
-        if why:
-            direct.append((t, origin, why, o))
-        key = _key("canon", t)
-        cs.add(f"({cstr(t)}, {c_obs(o)})", {"key": key, "kind": "canon", "origin": origin, "text": t, "impl_parse": j_obs(o)})
+        cs.add(f"({cstr(t)}, {c_obs(o)}, {cstr(back)})",
+               {"key": key, "kind": "canon", "origin": origin, "text": t, "impl_parse": j_obs(o), "impl_written_back": back})
         dist[origin] += 1
         seen.add(key)
         if len(samples) < 2 and origin == "from-grammar":
@@ -612,7 +641,7 @@ def _cases_mut(run, seeds, n_mut):
     long_item("x3/x3/x3 1 ", [("1", MAXD)], "int-limit-edge")
     long_item("x3/x3/x3 1 ", [("0", MAXD - 1), ("7", 1)], "int-limit-edge")
     long_item("x3/x3/x3 3 ", [("1", MAXD + 1)], "int-limit-player-first")
-    lenient = must_refuse_accepted = 0
+    lenient = noncanon = 0
     direct = []
     for s, tag in items:
         o = observe(s)
@@ -625,12 +654,12 @@ def _cases_mut(run, seeds, n_mut):
             dist["Unspecified(skipped)"] += 1
         else:
             dist[{"acc": "Accept", "ill": "IllegalTPS", "crash": "Crash"}[o[0]]] += 1
-            # reference reader (property's own statement): refuse <-> IllegalTPS, accept <-> same position
-            if ref[0] == "refuse" and o[0] != "ill":
-                direct.append((s, tag, "must-refuse text (" + ref[1] + ") was not refused with IllegalTPS", o))
-            elif ref[0] == "acc" and (o[0] != "acc" or not same_as_ref(o[1], ref)):
-                if not (ref[4] and o[0] == "ill"):      # lenient classes may be refused or read as the reference does
-                    direct.append((s, tag, "well-formed text read differently from the reference reader", o))
+            # the property's own statement on the implementation (the search oracle, exercised on every input)
+            why = oracle_text(s, o)
+            if why:
+                direct.append((s, tag, why, o, key))
+            if ref[0] == "acc" and not is_canonical_text(s):
+                noncanon += 1
             if ref[0] == "acc" and ref[4]:
                 lenient += 1
         for t in tag.split("+"):
@@ -642,6 +671,7 @@ def _cases_mut(run, seeds, n_mut):
         if len(samples) < 3 and tag not in ("fixed",) and o[0] == "ill":
             samples.append({"text": s[:120], "mutation": tag, "impl": "IllegalTPS"})
     dist["lenient (leading zeros / x1), compared exactly"] = lenient
+    dist["well-formed but not canonical (meaning only, no write-back demanded)"] = noncanon
     dist["by mutation"] = tags
     return cs, dist, len(seen), samples, direct
 
@@ -663,7 +693,11 @@ def correspondence(run):
               samples, dist, label="fmt")
     _report(run, cs, failing, lim, lambda m: {"clause": "format then parse gives an equal position / text is what the model writes",
                                               "input": m})
-    for p, origin, why in direct[:lim]:
+    overdemand = []      # oracle hits that the model (proved equal to the spec) does not confirm: the oracle asks too much
+    n_oracle = len(positions)
+    confirmed, over = _split_hits(direct, failing, shard_fail)
+    overdemand += [{"kind": "fmt", "position": takio.j_pos(h[0]), "oracle": h[2]} for h in over]
+    for p, origin, why, _k in confirmed[:lim]:
         run.violation(_key("fmt-direct", str(takio.j_pos(p))), {"clause": "formatting a position and parsing it back gives an equal position",
                                                                 "kind": "fmt", "input": {"position": takio.j_pos(p), "origin": origin}, "observed": why})
 
@@ -679,7 +713,10 @@ def correspondence(run):
               samples2, dist2, label="canon")
     _report(run, cs2, failing2, lim, lambda m: {"clause": "canonical text is read as the standard says and written back unchanged",
                                                 "input": m})
-    for t, origin, why, o in direct2[:lim]:
+    n_oracle += len(cs2)
+    confirmed2, over2 = _split_hits(direct2, failing2, shard_fail2)
+    overdemand += [{"kind": "canon", "text": h[0][:300], "oracle": h[2]} for h in over2]
+    for t, origin, why, o, _k in confirmed2[:lim]:
         run.violation(_key("canon-direct", t), {"clause": "canonical TPS means what the standard says and is written back unchanged",
                                                 "kind": "canon", "input": {"text": t, "origin": origin}, "observed": why, "impl": j_obs(o)})
 
@@ -698,32 +735,45 @@ def correspondence(run):
     run.extra["model_unspecified_skipped"] = dist3["Unspecified(skipped)"]
     _report(run, cs3, failing3, lim, lambda m: {"clause": "malformed text is refused with IllegalTPS; well-formed text is read as written",
                                                 "input": m})
-    for s, tag, why, o in direct3[:lim]:
+    n_oracle += len(cs3)
+    confirmed3, over3 = _split_hits(direct3, failing3, shard_fail3)
+    overdemand += [{"kind": "mut", "text": h[0][:300], "mutation": h[1], "oracle": h[2]} for h in over3]
+    for s, tag, why, o, _k in confirmed3[:lim]:
         run.violation(_key("mut-direct", s), {"clause": "text that is not well-formed TPS is refused with the parser's own error",
                                               "kind": "mut", "input": {"text": s, "text_codepoints": [ord(c) for c in s] if len(s) < 6000 else None, "mutation": tag},
                                               "observed": why, "impl": j_obs(o)})
+    # self-test of the search oracle: it ran on every input of all three streams (positions, canonical texts, mutated /
+    # lenient / non-canonical / over-limit texts); wherever it objected, the model must have objected too
+    run.oblige(f"selftest:search-oracle never demands more than the model ({n_oracle} inputs of all kinds)", not overdemand,
+               "oracle objects where implementation and model agree: " + str(overdemand[:5]))
+    run.extra["search_oracle_selftest"] = {"inputs": n_oracle, "hits_confirmed_by_model": len(confirmed) + len(confirmed2) + len(confirmed3),
+                                           "hits_not_confirmed": len(overdemand)}
 
 
 # --------------------------------------------------------------------------
 # search / replay
 # --------------------------------------------------------------------------
-def oracle_text(s):
-    """the property's statement on one text, on the implementation only.  -> None or a description of the failure"""
+def oracle_text(s, o=None):
+    """the property's statement on one text, on the implementation only.  -> None or a description of the failure.
+    Demanded: (a) nothing but IllegalTPS escapes; (b) text that is not well-formed TPS (reference reader refuses, incl. a
+    move number over the int() limit) is refused; (c) an ACCEPTED well-formed text is read as the standard says (cells,
+    ply, standard reserves); (d) a CANONICAL text (is_canonical_text, the mirror of the spec's `canonical`) is accepted
+    and written back unchanged.  Nothing else: a well-formed text that is not canonical (x1, leading zeros, split runs
+    such as x,x,x) may be accepted or refused, and no write-back is demanded for it."""
     from tak.ptn import tps
-    if expect_unspec(s):
-        return None
-    o, ref = observe(s), ref_read(s)
+    if o is None:
+        o = observe(s)
+    ref = ref_read(s)
     if o[0] == "crash":
         return "parse_tps raised " + o[1] + " instead of IllegalTPS"
     if ref[0] == "refuse":
         return None if o[0] == "ill" else "must-refuse text (" + ref[1] + ") accepted"
-    if ref[4] and o[0] == "ill":
-        return None
-    if o[0] != "acc":
-        return "well-formed text refused"
+    canonical = is_canonical_text(s)
+    if o[0] == "ill":
+        return "canonical text refused" if canonical else None
     if not same_as_ref(o[1], ref):
         return "text read differently from what it says"
-    if not ref[4]:
+    if canonical:
         try:
             back = tps.format_tps(o[1])
         except BaseException as e:  # noqa
@@ -733,23 +783,42 @@ def oracle_text(s):
     return None
 
 
-def oracle_position(p):
+def oracle_position(p, t=None, o=None):
+    """format then parse on one well-formed position (sizes 3-8, marks on top, ply // 2 + 1 < 10^4300)"""
     from tak.ptn import tps
-    try:
-        t = tps.format_tps(p)
-    except BaseException as e:  # noqa
-        return "format_tps raised " + type(e).__name__
-    if t != indep_write(p.size, board_of(p), p.ply):
-        return "format_tps(p) is not the canonical text of p: " + t[:200]
-    o = observe(t)
+    if t is None:
+        try:
+            t = tps.format_tps(p)
+        except BaseException as e:  # noqa
+            return "format_tps raised " + type(e).__name__
+    if o is None:
+        o = observe(t)
     if o[0] != "acc":
         return "parse_tps(format_tps(p)) did not accept: " + str(o[1])
     q = o[1]
     if board_of(q) != board_of(p) or q.ply != p.ply or q.size != p.size:
-        return "parse_tps(format_tps(p)) differs from p"
-    if [[s.stones, s.caps] for s in p.stones] == std_reserves(p.size, board_of(p)) and q != p:
+        return "parse_tps(format_tps(p)) differs from p (board / side to move / move number)"
+    if [[x.stones, x.caps] for x in p.stones] == std_reserves(p.size, board_of(p)) and q != p:
         return "reserves not restored for a standard piece set"
     return None
+
+
+def _model_confirms_text(run, s, o):
+    cs = core.Cases(ID, "confirm", HEADER, "bool * list Z * obs",
+                    "fun c => let '(u, t, o) := c in res_chk u (parse_tps t) o")
+    cs.add(f"({core.cbool(expect_unspec(s))}, {cstr(s)}, {c_obs(o)})", {"key": "confirm"})
+    failing, shard_fail, _ = cs.run()
+    if failing or shard_fail:
+        return True
+    # the parse agrees; for a canonical text the write-back is the model's business too
+    if o[0] == "acc" and is_canonical_text(s):
+        from tak.ptn import tps
+        try:
+            back = tps.format_tps(o[1])
+        except BaseException:  # noqa
+            return True
+        return back != s            # model: format (parse s) = s is a theorem for canonical s
+    return False
 
 
 def search(run, broken):
@@ -759,20 +828,55 @@ def search(run, broken):
 
 
 def _search(run, broken):
-    for p, origin in _positions(run):
+    """the oracle over the whole input stream of the correspondence (positions, their canonical texts, grammar strings,
+    fixed malformed texts, mutations, over-limit numbers).  A hit is reported as a concrete failing input only when the
+    model, evaluated inside Coq on that very input, disagrees with the implementation as well; a hit the model does
+    not confirm is an over-demanding oracle and is recorded as a broken self-test obligation instead."""
+    over = []
+
+    def hit_text(s, why):
+        o = observe(s)
+        if _model_confirms_text(run, s, o):
+            run.violation(_key("search-text", s), {"clause": "faithful reading / refusal", "kind": "mut",
+                                                   "input": {"text": s, "text_codepoints": [ord(c) for c in s] if len(s) < 6000 else None},
+                                                   "observed": why, "impl": j_obs(o)})
+            return True
+        over.append({"text": s[:300], "oracle": why})
+        return False
+
+    found = False
+    positions = _positions(run)
+    for p, origin in positions:
         why = oracle_position(p)
         if why:
-            run.violation(_key("search-pos", str(takio.j_pos(p))), {"clause": "format/parse round trip", "kind": "fmt",
-                                                                    "input": {"position": takio.j_pos(p), "origin": origin}, "observed": why})
-            return True
-    seeds = [grammar_canonical(run.rng) for _ in range(300)]
-    for s in FIXED_STRINGS + seeds + [mutated(run.rng, run.rng.choice(seeds))[0] for _ in range(20000)]:
-        why = oracle_text(s)
-        if why:
-            run.violation(_key("search-text", s), {"clause": "faithful reading / refusal", "kind": "mut",
-                                                   "input": {"text": s, "text_codepoints": [ord(c) for c in s] if len(s) < 6000 else None}, "observed": why})
-            return True
-    return False
+            cs, _, _, _, _ = _cases_fmt(run, [(p, origin)])
+            failing, shard_fail, _ = cs.run() if len(cs) else ([1], [], 0)
+            if failing or shard_fail:
+                run.violation(_key("search-pos", str(takio.j_pos(p))), {"clause": "format/parse round trip", "kind": "fmt",
+                                                                        "input": {"position": takio.j_pos(p), "origin": origin}, "observed": why})
+                found = True
+                break
+            over.append({"position": takio.j_pos(p), "oracle": why})
+            if len(over) >= 5:
+                break
+    if not found and len(over) < 5:
+        seeds = [indep_write(p.size, board_of(p), p.ply) for p, _ in positions] + [grammar_canonical(run.rng) for _ in range(300)]
+        short = [t for t in seeds if len(t) < 160] or ["x3/x3/x3 1 1"]
+        stream = list(FIXED_STRINGS) + seeds + [mutated(run.rng, run.rng.choice(short))[0] for _ in range(20000)]
+        stream += ["x3/x3/x3 1 " + "1" * (MAXD + 1), "x3/x3/xa 2 " + "9" * (MAXD + 7), "x3/x3/x3 1 " + "0" * MAXD + "1",
+                   "x3/x3/x3 1 " + "1" * MAXD, "x3/x3/x3 3 " + "1" * (MAXD + 1)]
+        for s in stream:
+            why = oracle_text(s)
+            if why:
+                if hit_text(s, why):
+                    found = True
+                    break
+                if len(over) >= 5:
+                    break
+    if over:
+        run.oblige("selftest:search-oracle never demands more than the model (search stream)", False,
+                   "oracle objects where implementation and model agree: " + str(over[:5]))
+    return found
 
 
 def replay(run, rp):
